@@ -1,6 +1,7 @@
 """C13 -- interrupts pre-empt and resume as documented; guards are checked when promised (structural part)."""
 
 import ast
+import re
 
 from .. import lib
 from ..model import AnalysisError, ancestors, dotted, norm_text, parent, unparse, walk_local
@@ -42,8 +43,17 @@ def check_priority(ctx, R="C13.priority"):
                 return 0, it.id
         return None, None
 
-    rc, csrc = reversal("conditions")
-    rh, hsrc = reversal("handlers")
+    # the 4th and 5th argument of the emitted runTryInterrupt(behavior, agent, body, conditions, handlers) call
+    emitted = [c for c in walk_local(vis) if isinstance(c, ast.Call) and dotted(c.func) == "ast.Call" and c.args and "'runTryInterrupt'" in unparse(c.args[0])]
+    if len(emitted) != 1 or len(emitted[0].args) < 2:
+        raise AnalysisError("shape not recognised: the emitted runTryInterrupt call of visit_TryInterrupt")
+    alist = emitted[0].args[1]
+    if isinstance(alist, ast.Name):
+        alist = env.get(alist.id)
+    if not (isinstance(alist, ast.List) and len(alist.elts) == 5 and all(isinstance(e, ast.Name) for e in alist.elts[3:])):
+        raise AnalysisError("shape not recognised: argument list of the emitted runTryInterrupt call")
+    rc, csrc = reversal(alist.elts[3].id)
+    rh, hsrc = reversal(alist.elts[4].id)
     if rc is None or rh is None:
         raise AnalysisError("shape not recognised: conditions/handlers tuples of visit_TryInterrupt")
     # the name lists are filled in source order inside one loop over the handlers
@@ -61,18 +71,29 @@ def check_priority(ctx, R="C13.priority"):
         ctx.finding(R, vis, "conditions/handlers ordered differently", f"visit_TryInterrupt reverses the conditions ({rc}) and the handlers ({rh}) differently: condition i would trigger another clause's handler")
     # runtime scan
     rt = model.func(IV, "runTryInterrupt")
+    rp = [a.arg for a in rt.args.args]
+    if len(rp) != 5:
+        raise AnalysisError("shape not recognised: parameters of runTryInterrupt")
+    bodyp, condp, handp = rp[2], rp[3], rp[4]
     zips = [c for c in ast.walk(rt) if isinstance(c, ast.Call) and dotted(c.func) == "zip"]
-    if not zips or [unparse(a) for a in zips[0].args] != ["conditions", "handlers"]:
+    if not zips or [unparse(a) for a in zips[0].args] != [condp, handp]:
         ctx.finding(R, rt, "condition/handler pairing", "runTryInterrupt no longer pairs conditions[i] with handlers[i] via zip(conditions, handlers)")
-    scan = [n for n in ast.walk(rt) if isinstance(n, ast.For) and unparse(n.iter) in ("interrupts", "reversed(interrupts)", "interrupts[::-1]")]
+    # the list of interrupt blocks: the local built from that zip
+    ilist = lib.locals_assigned(rt, lambda v: isinstance(v, (ast.ListComp, ast.Call)) and "InterruptBlock(" in unparse(v) and "zip(" in unparse(v))
+    if len(ilist) != 1:
+        raise AnalysisError("shape not recognised: interrupt block list of runTryInterrupt")
+    il = ilist[0]
+    scan = [n for n in ast.walk(rt) if isinstance(n, ast.For) and unparse(n.iter) in (il, f"reversed({il})", f"{il}[::-1]") and isinstance(n.target, ast.Name)]
     if len(scan) != 1:
         raise AnalysisError("shape not recognised: interrupt scan of runTryInterrupt")
     lp = scan[0]
-    rev_rt = 0 if unparse(lp.iter) == "interrupts" else 1
-    sel = [n for n in ast.walk(lp) if isinstance(n, ast.Assign) and unparse(n.targets[0]) == "block"]
+    iv = lp.target.id
+    rev_rt = 0 if unparse(lp.iter) == il else 1
+    sel = [n for n in ast.walk(lp) if isinstance(n, ast.Assign) and isinstance(n.targets[0], ast.Name) and unparse(n.value) == iv]
     brk = any(isinstance(n, ast.Break) for n in ast.walk(lp))
     if not sel:
         raise AnalysisError("shape not recognised: block selection in runTryInterrupt")
+    blockv = sel[0].targets[0].id
     picks_first = brk  # first match wins if the loop breaks, last match wins otherwise
     # position (in source order) of the winning clause among enabled ones: last => 1
     wins_last = (rc + rev_rt + (0 if picks_first else 1)) % 2
@@ -88,12 +109,11 @@ def check_priority(ctx, R="C13.priority"):
         )
     # the test of the scan: enabled or already running
     tests = [n for n in ast.walk(lp) if isinstance(n, ast.If)]
-    if tests and set(unparse(v) for v in (tests[0].test.values if isinstance(tests[0].test, ast.BoolOp) and isinstance(tests[0].test.op, ast.Or) else [tests[0].test])) == {"interrupt.isEnabled", "interrupt.isRunning"}:
+    if tests and set(unparse(v) for v in (tests[0].test.values if isinstance(tests[0].test, ast.BoolOp) and isinstance(tests[0].test.op, ast.Or) else [tests[0].test])) == {f"{iv}.isEnabled", f"{iv}.isRunning"}:
         ctx.ok(R, tests[0], "a handler is selected when its condition holds or it is already running (so it resumes until a higher one pre-empts)")
     else:
         ctx.finding(R, lp, "interrupt selection test", "runTryInterrupt no longer selects `interrupt.isEnabled or interrupt.isRunning`")
-    init = [n for n in rt.body if isinstance(n, ast.Assign) and unparse(n.targets[0]) == "block"]
-    blk0 = [n for n in ast.walk(rt) if isinstance(n, ast.Assign) and unparse(n.targets[0]) == "block" and unparse(n.value) == "body"]
+    blk0 = [n for n in ast.walk(rt) if isinstance(n, ast.Assign) and unparse(n.targets[0]) == blockv and unparse(n.value) == bodyp]
     if blk0:
         ctx.ok(R, blk0[0], "the body runs when no handler is enabled or running")
     else:
@@ -118,8 +138,20 @@ def check_resume(ctx, R="C13.resume"):
     else:
         ctx.finding(R, st, "InterruptBlock.step iterator lifetime", "InterruptBlock.step creates or clears runningIterator outside the `not running` / StopIteration cases: a pre-empted block would restart or lose its position")
     rt = model.func(IV, "runTryInterrupt")
-    t = unparse(rt)
-    if "result is BlockConclusion.FINISHED and block is not body" in t and "return result" in t:
+    # roles: (result, concluded) unpacked from <block>.step(..); <block> is what the scan selects; body is the 3rd parameter
+    bodyp = rt.args.args[2].arg
+    stepu = [n for n in walk_local(rt) if isinstance(n, ast.Assign) and isinstance(n.targets[0], ast.Tuple) and len(n.targets[0].elts) == 2 and isinstance(n.value, ast.Call) and isinstance(n.value.func, ast.Attribute) and n.value.func.attr == "step" and isinstance(n.value.func.value, ast.Name)]
+    good_c = False
+    if len(stepu) == 1 and all(isinstance(e, ast.Name) for e in stepu[0].targets[0].elts):
+        resv, concv = (e.id for e in stepu[0].targets[0].elts)
+        blockv = stepu[0].value.func.value.id
+        for i in walk_local(rt):
+            if isinstance(i, ast.If) and isinstance(i.test, ast.BoolOp) and isinstance(i.test.op, ast.And) and {unparse(v) for v in i.test.values} == {f"{resv} is BlockConclusion.FINISHED", f"{blockv} is not {bodyp}"}:
+                under = any(unparse(t_) == concv and p_ for t_, p_ in lib.guard_tests(i, rt))
+                cont = any(isinstance(x, ast.Continue) for x in i.body)
+                ret = any(isinstance(x, ast.Return) and x.value is not None and unparse(x.value) == resv for x in i.orelse)
+                good_c = under and cont and ret
+    if good_c:
         ctx.ok(R, rt, "only a FINISHED handler resumes the scan; anything else concludes the statement with its flag")
     else:
         ctx.finding(R, rt, "conclusion handling", "runTryInterrupt no longer continues only after `FINISHED` of a handler and returns every other conclusion")
@@ -169,7 +201,21 @@ def check_invariants(ctx, R="C13.invariants"):
             ctx.finding(R, n, f"{q}: extra yield construction", f"compiler `{q}` builds a yield outside generateInvocation / the try-interrupt expansion: that suspension is not followed by an invariant check")
     gi = model.func(CO, "ScenicToPythonTransformer.generateInvocation")
     rets = [r for r in lib.returns_of(gi) if isinstance(r.value, ast.List)]
-    if rets and [unparse(e) for e in rets[0].value.elts] == ["invokeAction", "checkInvariants"] and "checkInvariantsName" in unparse(gi):
+    genv = {n.targets[0].id: n.value for n in walk_local(gi) if isinstance(n, ast.Assign) and len(n.targets) == 1 and isinstance(n.targets[0], ast.Name)}
+
+    def _expand(e, depth=0):
+        """text of e with locals replaced by their definitions (roles instead of names)"""
+        if depth > 4:
+            return unparse(e)
+        out = unparse(e)
+        for nm in sorted(lib.names_loaded(e), key=len, reverse=True):
+            if nm in genv:
+                out = re.sub(rf"\b{re.escape(nm)}\b", lambda m_: _expand(genv[nm], depth + 1), out)
+        return out
+
+    inv_p = gi.args.args[3].arg if len(gi.args.args) >= 4 else "invoker"
+    elts = [_expand(e) for e in rets[0].value.elts] if rets else []
+    if len(elts) == 2 and f"{inv_p}(" in elts[0] and "checkInvariantsName" not in elts[0] and "checkInvariantsName" in elts[1] and elts[1].startswith("ast.Expr(ast.Call("):
         ctx.ok(R, gi, "generateInvocation emits [yield ..., checkInvariants(...)] in that order")
     else:
         ctx.finding(R, gi, "generateInvocation order", "generateInvocation no longer returns [invokeAction, checkInvariants]: invariants are not re-checked when a behaviour resumes")
@@ -231,35 +277,61 @@ def check_abandoned(ctx, R="C13.abandon"):
     )
     model = ctx.model
     inv = model.func(BH, "Behavior._invokeInner")
-    starts = [c for c in ast.walk(inv) if isinstance(c, ast.Call) and unparse(c.func) == "sub._start"]
+    starts = [c for c in ast.walk(inv) if isinstance(c, ast.Call) and isinstance(c.func, ast.Attribute) and c.func.attr == "_start" and isinstance(c.func.value, ast.Name)]
     tries = [n for n in ast.walk(inv) if isinstance(n, ast.Try) and n.finalbody]
     good = False
+    subs_started = {c.func.value.id for c in starts}
     for tr in tries:
         fin = " ".join(unparse(s) for s in tr.finalbody)
-        if "sub._isRunning" in fin and "sub._stop()" in fin and any("yield from sub._runningIterator" in unparse(s) for s in tr.body):
-            good = all(c.lineno < tr.lineno for c in starts)
+        for sv in subs_started:
+            if f"{sv}._isRunning" in fin and f"{sv}._stop()" in fin and any(f"yield from {sv}._runningIterator" in unparse(s) for s in tr.body):
+                good = all(c.lineno < tr.lineno for c in starts)
     if starts and good:
         ctx.ok(R, inv, "a sub-behaviour is stopped in `finally` whenever the generator running it is closed or fails")
     else:
         ctx.finding(R, inv, "sub-behaviour finally", "Behavior._invokeInner no longer stops a still-running sub-behaviour in a `finally` around `yield from`")
     isb = model.func(IV, "Invocable._invokeSubBehavior")
-    handler = [f for f in ast.walk(isb) if isinstance(f, ast.FunctionDef) and f.name == "handler"]
+    handler = [f for f in ast.walk(isb) if isinstance(f, ast.FunctionDef) and f is not isb and any(isinstance(r, ast.Return) and r.value is not None and unparse(r.value) == "BlockConclusion.ABORT" for r in ast.walk(f))]
     if handler:
         t = unparse(handler[0])
-        if "for sub in subs" in t and "sub._isRunning" in t and "sub._stop(" in t and "return BlockConclusion.ABORT" in t:
+        subsp = isb.args.args[2].arg
+        lps = [l for l in ast.walk(handler[0]) if isinstance(l, ast.For) and unparse(l.iter) == subsp and isinstance(l.target, ast.Name)]
+        sv = lps[0].target.id if lps else "?"
+        if lps and f"{sv}._isRunning" in unparse(lps[0]) and f"{sv}._stop(" in unparse(lps[0]) and "return BlockConclusion.ABORT" in t:
             ctx.ok(R, handler[0], "`do X for/until`: all running subs are stopped before the statement aborts")
         else:
             ctx.finding(R, handler[0], "for/until handler", "the for/until handler of _invokeSubBehavior no longer stops every running sub before returning ABORT")
     else:
         ctx.finding(R, isb, "for/until handler", "_invokeSubBehavior has no handler for the for/until modifier")
     calls = [c for c in ast.walk(isb) if isinstance(c, ast.Call) and dotted(c.func) == "runTryInterrupt"]
-    if calls and [unparse(a) for a in calls[0].args] == ["self", "agent", "body", "[condition]", "[handler]"]:
+    agentp = isb.args.args[1].arg
+    nested = {f.name for f in ast.walk(isb) if isinstance(f, ast.FunctionDef) and f is not isb}
+    cond_locals = set(lib.locals_assigned(isb, lambda v: isinstance(v, ast.Lambda) or unparse(v).endswith(".value")))
+    a_ = calls[0].args if calls else []
+    shape_ok = (
+        len(a_) == 5
+        and unparse(a_[0]) == "self"
+        and unparse(a_[1]) == agentp
+        and isinstance(a_[2], ast.Name)
+        and a_[2].id in nested
+        and isinstance(a_[3], ast.List)
+        and len(a_[3].elts) == 1
+        and isinstance(a_[3].elts[0], ast.Name)
+        and a_[3].elts[0].id in cond_locals
+        and isinstance(a_[4], ast.List)
+        and len(a_[4].elts) == 1
+        and handler
+        and unparse(a_[4].elts[0]) == handler[0].name
+    )
+    if shape_ok:
         ctx.ok(R, calls[0], "for/until is a try-interrupt with one condition and one aborting handler")
     else:
         ctx.finding(R, isb, "for/until try-interrupt", "`do X for/until` is no longer runTryInterrupt(self, agent, body, [condition], [handler])")
     # duration condition
     lam = [n for n in ast.walk(isb) if isinstance(n, ast.Lambda) and "currentTime" in unparse(n)]
-    if lam and unparse(lam[0].body) == "veneer.currentSimulation.currentTime - startTime >= timeLimit" and "timeLimit /= veneer.currentSimulation.timestep" in unparse(isb):
+    st_v = lib.locals_assigned(isb, lambda v: unparse(v) == "veneer.currentSimulation.currentTime")
+    tl_v = [n.target.id for n in ast.walk(isb) if isinstance(n, ast.AugAssign) and isinstance(n.op, ast.Div) and isinstance(n.target, ast.Name) and unparse(n.value) == "veneer.currentSimulation.timestep"]
+    if lam and len(st_v) == 1 and len(tl_v) == 1 and lib.ctext(lam[0].body) == lib.ctext_of(f"veneer.currentSimulation.currentTime - {st_v[0]} >= {tl_v[0]}") and tl_v[0] in lib.locals_assigned(isb, lambda v: unparse(v).endswith(".value")):
         ctx.ok(R, lam[0], "`for N steps/seconds` fires when currentTime - startTime >= N (seconds converted with the timestep)")
     else:
         ctx.finding(R, isb, "duration condition", "the `for` duration condition is no longer `currentTime - startTime >= timeLimit` with seconds divided by the timestep")
